@@ -5,3 +5,5 @@ CHECK_DEADLOCK FALSE
 CONSTANTS
   Mode = "cols"
   Big = FALSE
+  RawBig = TRUE
+  ColsFull = TRUE
